@@ -29,9 +29,12 @@ type WorkerOut struct {
 	HashFile   string      `json:"hash_file"`
 	WallS      float64     `json:"wall_s"`
 	Leaked     int         `json:"leaked_bubbles"`
-	Error      string      `json:"error,omitempty"`
-	RaceBuild  bool        `json:"race_build"`
-	Meta       *Prop       `json:"meta"`
+	// StoppedEarly: the worker gave up before its budget (goroutines left behind by failing runs pile up, or the
+	// quick tier overran its wall-clock bound); violations found until then stand, a clean result does not
+	StoppedEarly string `json:"stopped_early,omitempty"`
+	Error        string `json:"error,omitempty"`
+	RaceBuild    bool   `json:"race_build"`
+	Meta         *Prop  `json:"meta"`
 }
 
 type FoundViol struct {
@@ -159,9 +162,18 @@ func TestWorker(t *testing.T) {
 	distinct := map[uint64]struct{}{}
 	const distinctCap = 400000
 	sigs := map[string]int{}
+	maxWall := time.Duration(envInt("VERIF_MAX_WALL_S", 900)) * time.Second
 	for i := 0; i < runs; i++ {
 		heartbeat.Add(1)
 		if maxMs > 0 && time.Since(start) > time.Duration(maxMs)*time.Millisecond {
+			break
+		}
+		if n := runtime.NumGoroutine(); n > envInt("VERIF_MAX_GOROUTINES", 20000) {
+			out.StoppedEarly = fmt.Sprintf("after %d of %d runs: %d goroutines are alive (left blocked by earlier runs, %d bubbles ended with blocked goroutines)", i, runs, n, leakedBubbles)
+			break
+		}
+		if maxMs == 0 && time.Since(start) > maxWall {
+			out.StoppedEarly = fmt.Sprintf("after %d of %d runs: wall-clock bound of %s for a run-count tier exceeded", i, runs, maxWall)
 			break
 		}
 		runSeed := Mix(seed, HashString(propID), uint64(worker), uint64(i))
@@ -256,7 +268,6 @@ func TestWorker(t *testing.T) {
 		b, _ := json.MarshalIndent(out, "", " ")
 		fmt.Println(string(b))
 	}
-	_ = runtime.NumGoroutine
 	if RaceBuild {
 		// the testing package fails the test when the detector reported anything; reports are this check's data
 		os.Exit(0)
